@@ -290,45 +290,68 @@ def seeded_for(pid):
     return out
 
 
+_OVERLAYS = {}
+
+
+def _battery_task(t):
+    pid, label = t
+    fresh, errors, r = run_check(pid, _OVERLAYS[label])
+    return label, [(o.rule, o.key) for o in fresh], list(errors)
+
+
 def battery(pid, run, repo):
-    """runs both batteries for property pid; records results in run.extra; failed expectations become analysis errors"""
+    """runs both batteries for property pid (on all cores: the overlays are prepared here, the worker processes are forked and each
+    re-runs the check on one overlay); records results in run.extra; failed expectations become analysis errors"""
+    import multiprocessing as mp
     read = repo_reader(repo)
     res = {'seeded': [], 'benign': []}
+    _OVERLAYS.clear()
+    seeded = {}
     for sid, meta, patch in seeded_for(pid):
         expected = pid in meta.get('caught_by', [])
         recorded_miss = pid in meta.get('not_reachable_for', [])
         if not expected and not recorded_miss:
             continue
         try:
-            ov = apply_patch(open(patch).read(), read)
+            _OVERLAYS['seed:' + sid] = apply_patch(open(patch).read(), read)
+            seeded['seed:' + sid] = (sid, meta, expected)
         except ValueError as ex:
             res['seeded'].append({'id': sid, 'result': 'patch does not apply to the current tree (%s)' % ex})
-            continue
-        fresh, errors, r = run_check(pid, ov)
-        caught = bool(fresh)
-        res['seeded'].append({'id': sid, 'expected': 'caught' if expected else 'not reachable', 'caught': caught, 'errors': errors[:1],
-                              'rules': sorted({o.rule for o in fresh})[:6]})
-        if expected and not caught:
-            run.error('self-test: seeded change %s is no longer reported by %s (rules expected: %s)' % (sid, pid, meta.get('caught_rules', {}).get(pid)))
+    benign = {}
     for name, ov in benign_variants(repo).items():
-        fresh, errors, r = run_check(pid, ov)
-        ok = not fresh and not errors
-        res['benign'].append({'edit': name, 'silent': ok, 'new_violations': [(o.rule, o.key) for o in fresh][:5], 'errors': errors[:2]})
-        if not ok:
-            run.error('self-test: benign edit `%s` changes the verdict of %s: %s %s' % (name, pid, [(o.rule, o.key) for o in fresh][:3], errors[:1]))
+        _OVERLAYS['benign:' + name] = ov
+        benign['benign:' + name] = name
     # (c) behaviour-preserving refactorings kept as diffs under /verif/benign (each passes the 222 tests and the demonstrations of the
     #     seeded changes it is derived from): no check may report anything on them
     for bp in sorted(glob.glob(os.path.join(VERIF, 'benign', '*.diff'))):
         try:
-            ov = apply_patch(open(bp).read(), read)
+            _OVERLAYS['benign:' + os.path.basename(bp)] = apply_patch(open(bp).read(), read)
+            benign['benign:' + os.path.basename(bp)] = os.path.basename(bp)
         except ValueError as ex:
             res['benign'].append({'edit': os.path.basename(bp), 'result': 'does not apply to the current tree (%s)' % ex})
-            continue
-        fresh, errors, r = run_check(pid, ov)
-        ok = not fresh and not errors
-        res['benign'].append({'edit': os.path.basename(bp), 'silent': ok, 'new_violations': [(o.rule, o.key) for o in fresh][:5], 'errors': errors[:2]})
-        if not ok:
-            run.error('self-test: benign refactoring %s changes the verdict of %s: %s %s' % (os.path.basename(bp), pid, [(o.rule, o.key) for o in fresh][:3], errors[:1]))
+    tasks = [(pid, label) for label in list(seeded) + list(benign)]
+    nproc = max(1, min(16, (os.cpu_count() or 2)))
+    try:
+        ctx = mp.get_context('fork')
+        with ctx.Pool(nproc) as pool:
+            results = pool.map(_battery_task, tasks, chunksize=1)
+    except (OSError, ValueError):
+        results = [_battery_task(t) for t in tasks]
+    for label, fresh, errors in results:
+        if label in seeded:
+            sid, meta, expected = seeded[label]
+            caught = bool(fresh)
+            res['seeded'].append({'id': sid, 'expected': 'caught' if expected else 'not reachable', 'caught': caught, 'errors': errors[:1],
+                                  'rules': sorted({r_ for r_, _ in fresh})[:6]})
+            if expected and not caught:
+                run.error('self-test: seeded change %s is no longer reported by %s (rules expected: %s)' % (sid, pid, meta.get('caught_rules', {}).get(pid)))
+        else:
+            name = benign[label]
+            ok = not fresh and not errors
+            res['benign'].append({'edit': name, 'silent': ok, 'new_violations': fresh[:5], 'errors': errors[:2]})
+            if not ok:
+                run.error('self-test: benign edit `%s` changes the verdict of %s: %s %s' % (name, pid, fresh[:3], errors[:1]))
+    _OVERLAYS.clear()
     restore_model()
     run.extra['selftest'] = res
     return res
